@@ -1,65 +1,55 @@
-// C14 — randomised part: rectangles up to 12x12 (and a few larger), thin rectangles, heavily tied small rectangles,
-// random weak orders of 3x3, and lines of 0..200 samples with plateaus, several value / index / range types and comparators.
-#include "c14_common.h"
-#include <deque>
+// C14 — randomised part: rectangles up to 12x12 (and a few larger, up to 300x300), thin rectangles, heavily tied small
+// rectangles, random weak orders of 3x3, rectangles at the capacity of an 8-bit Index, and lines of 0..200 samples (and nested
+// lines of 201..3000) with plateaus, several value / index / range types and comparators; +-inf levels and mixed signed zeros.
+// The same source is also built WITHOUT -DNDEBUG (unit random_dbg): the routines' own GUDHI_CHECK / assert lines are then live.
+#include "c14_random.h"
 
 namespace {
-using namespace c14;
+using namespace c14r;
 
-struct VI { double v; int i; };
-struct VI_less { bool operator()(const VI& a, const VI& b) const { return a.v < b.v || (a.v == b.v && a.i < b.i); } };
+enum Tcombo { T_double_unsigned, T_double_size_t, T_float_int, T_int_unsigned, T_double_long, T_double_ushort,
+              T_double_uchar, T_double_schar, T_unsigned_ull, T_llong_unsigned, T_onlyless_unsigned, T_count };
+inline bool tcombo_integral(int t) { return t == T_int_unsigned || t == T_unsigned_ull || t == T_llong_unsigned; }
 
-// values on a dyadic grid, `levels` distinct levels at most; integer-valued when integral is set
-std::vector<double> random_values(vh::Rng& r, size_t n, long levels, bool integral, std::string& how) {
-  static const double scales[] = {1, 0.5, 0.25, 8};
-  double scale = integral ? 1 : scales[r.below(4)];
-  long off = r.range(-levels, 2);
-  std::vector<double> v(n);
-  int style = (int)r.below(4);
-  if (style == 0) {           // independent levels
-    for (auto& x : v) x = (double)(r.range(0, levels - 1) + off) * scale;
-    how = "iid";
-  } else if (style == 1) {    // a permutation with some ties merged
-    std::vector<long> p(n); for (size_t i = 0; i < n; ++i) p[i] = (long)i; r.shuffle(p);
-    long div = 1 + (long)(n / (size_t)std::max(1L, levels));
-    for (size_t i = 0; i < n; ++i) v[i] = (double)(p[i] / div + off) * scale;
-    how = "perm/" + vh::str(div);
-  } else if (style == 2) {    // smooth-ish: random walk in C order, plateaus likely
-    long cur = 0;
-    for (auto& x : v) { cur += r.range(-1, 1); x = (double)(cur + off) * scale; }
-    how = "walk";
-  } else {                    // two-level background with a few outliers (checkerboard-like traps)
-    for (auto& x : v) x = (double)((r.below(2) ? 0 : levels) + (r.chance(1, 6) ? r.range(-2, 2) : 0) + off) * scale;
-    how = "two_level";
-  }
-  return v;
-}
-
-long pick_levels(vh::Rng& r, size_t n) {
-  switch (r.below(6)) { case 0: return 2; case 1: return 3; case 2: return 4; case 3: return std::max<long>(2, n / 3); case 4: return std::max<long>(2, n); default: return std::max<long>(2, 3 * n); }
-}
-
-bool one_rectangle(Ctx& X, int r, int cN, const std::vector<double>& vals, int tcombo, bool& nontrivial) {
+// model: 0 = map-based cell model, 1 = map-based and vector-based (compared), 2 = vector-based only (sides > 48)
+bool one_rectangle(Ctx& X, int r, int cN, const std::vector<double>& vals, int tcombo, int model, bool& nontrivial) {
   vh::Case& c = X.c;
-  Expected E = expected_of(r, cN, vals);
   Input_txt txt{r, cN, &vals};
+  Expected E;
+  if (model == 2) { E = expected_from(lower_star_pairs_vec(r, cN, vals), vals); c.count("model.vector_columns_only"); }
+  else E = expected_of(r, cN, vals);
+  if (model == 1) {
+    Expected E2 = expected_from(lower_star_pairs_vec(r, cN, vals), vals);
+    c.count("cmp.model.vector_columns_vs_map_columns");
+    if (!same_expected(E, E2, true))
+      X.violation("harness.model_vector_columns", "rect", [&] { return "input " + txt + " vector columns " + oracle::show(E2.offdiag) + " map columns " + oracle::show(E.offdiag); });
+  }
+  const size_t n = (size_t)r * cN;
   bool ok;
+  // Index types narrower than int (documented requirement: large enough to represent the size of the input)
+  if (tcombo == T_double_ushort && n > 65535) tcombo = T_double_unsigned;
+  if (tcombo == T_double_ushort && n > 32767) c.count("inputs.rect.unsigned_short_above_32767_cells");
+  if (tcombo == T_double_uchar && n > 255) tcombo = T_double_unsigned;
+  if (tcombo == T_double_schar && n > 127) tcombo = T_double_size_t;
   switch (tcombo) {
-    case 0: ok = check_rectangle<double, unsigned>(X, r, cN, vals, E, txt); c.count("types.double_unsigned"); break;
-    case 1: ok = check_rectangle<double, std::size_t>(X, r, cN, vals, E, txt); c.count("types.double_size_t"); break;
-    case 2: ok = check_rectangle<float, int>(X, r, cN, vals, E, txt); c.count("types.float_int"); break;
-    case 3: ok = check_rectangle<int, unsigned>(X, r, cN, vals, E, txt); c.count("types.int_unsigned"); break;
-    case 5:  // an Index type narrower than int (documented requirement: large enough for the size of the input); vertex grid <= 65535
-      if ((size_t)(r + 1) * (size_t)(cN + 1) < 30000) { ok = check_rectangle<double, unsigned short>(X, r, cN, vals, E, txt); c.count("types.double_unsigned_short"); }
-      else { ok = check_rectangle<double, unsigned>(X, r, cN, vals, E, txt); c.count("types.double_unsigned"); }
-      break;
+    case T_double_unsigned: ok = check_rectangle<double, unsigned>(X, r, cN, vals, E, txt); c.count("types.double_unsigned"); break;
+    case T_double_size_t: ok = check_rectangle<double, std::size_t>(X, r, cN, vals, E, txt); c.count("types.double_size_t"); break;
+    case T_float_int: ok = check_rectangle<float, int>(X, r, cN, vals, E, txt); c.count("types.float_int"); break;
+    case T_int_unsigned: ok = check_rectangle<int, unsigned>(X, r, cN, vals, E, txt); c.count("types.int_unsigned"); break;
+    case T_double_ushort: ok = check_rectangle<double, unsigned short>(X, r, cN, vals, E, txt); c.count("types.double_unsigned_short"); break;
+    case T_double_uchar: ok = check_rectangle<double, unsigned char>(X, r, cN, vals, E, txt); c.count("types.double_unsigned_char"); break;
+    case T_double_schar: ok = check_rectangle<double, signed char>(X, r, cN, vals, E, txt); c.count("types.double_signed_char"); break;
+    case T_unsigned_ull: ok = check_rectangle<unsigned, unsigned long long>(X, r, cN, vals, E, txt); c.count("types.unsigned_ulonglong"); break;
+    case T_llong_unsigned: ok = check_rectangle<long long, unsigned>(X, r, cN, vals, E, txt); c.count("types.longlong_unsigned"); break;
+    case T_onlyless_unsigned: ok = check_rectangle<Only_less, unsigned>(X, r, cN, vals, E, txt); c.count("types.only_less_unsigned"); break;
     default: ok = check_rectangle<double, long>(X, r, cN, vals, E, txt); c.count("types.double_long"); break;
   }
   c.count("inputs.rect");
   if (r == 2 || cN == 2) { c.count("inputs.rect.side_of_2"); if (shared_corner_min_not_last(r, cN, vals)) c.count("inputs.rect.shared_corner_min_not_last"); }
   if (r <= 12 && cN <= 12) count_neighbour_patterns(c, r, cN, vals);
-  int n0 = 0, n1 = 0; for (auto& i : E.offdiag) (i.dim ? n1 : n0)++;
+  int n0 = 0, n1 = 0, ninf = 0; for (auto& i : E.offdiag) { (i.dim ? n1 : n0)++; if (i.death == kInf || i.birth == -kInf) ++ninf; }
   c.count("expected.finite_dim0_intervals", n0); c.count("expected.finite_dim1_intervals", n1);
+  c.count("expected.paired_intervals_with_infinite_end", ninf);
   nontrivial = n0 + n1 > 0;
   if (n1) c.count("inputs.rect.with_dim1_interval");
   return ok;
@@ -68,7 +58,7 @@ bool one_rectangle(Ctx& X, int r, int cN, const std::vector<double>& vals, int t
 void rect_case(vh::Case& c, int kind) {
   vh::Rng& r = c.rng;
   Ctx X(c);
-  int rows, cols, reps = 1;
+  int rows, cols, reps = 1, forced_t = -1, model = 0;
   if (kind == 0) {            // general, sides 2..12, sides of exactly 2 over-weighted
     rows = (int)r.range(2, 12); cols = (int)r.range(2, 12);
     if (r.chance(1, 4)) (r.below(2) ? rows : cols) = 2;
@@ -80,87 +70,41 @@ void rect_case(vh::Case& c, int kind) {
     int s = (int)r.below(8); rows = sh[s][0]; cols = sh[s][1]; reps = 40;
   } else if (kind == 3) {     // random weak orders of the 3x3 rectangle
     rows = cols = 3; reps = 200;
-  } else {                    // big
-    rows = (int)r.range(13, 48); cols = (int)r.range(13, 48);
+  } else if (kind == 4) {     // big
+    rows = (int)r.range(13, 48); cols = (int)r.range(13, 48); model = 1;
+  } else if (kind == 5) {     // as many cells as an 8-bit Index can represent (255 / 127), or a little fewer
+    const bool sgn = r.below(2);
+    const int cap = sgn ? 127 : 255;
+    forced_t = sgn ? T_double_schar : T_double_uchar;
+    int a = r.chance(1, 3) ? 2 : (int)r.range(2, r.chance(1, 2) ? 16 : cap / 2);
+    int b = cap / a;
+    if (r.chance(1, 3) && b > 2) b = (int)r.range(std::max(2, b - 3), b);
+    if (r.below(2)) { rows = a; cols = b; } else { rows = b; cols = a; }
+    if (rows * cols + std::min(rows, cols) > cap) c.count("inputs.rect.narrow_index_at_capacity");
+  } else {                    // huge: a side in 100..300 (judged with the vector-column model only)
+    rows = (int)r.range(100, 300); cols = r.chance(1, 2) ? (int)r.range(100, 300) : (int)r.range(2, 60);
+    if (r.below(2)) std::swap(rows, cols);
+    model = 2;
+    if ((size_t)rows * cols <= 65535 && r.chance(1, 4)) forced_t = T_double_ushort;  // a 16-bit Index on up to 65535 cells
   }
   const size_t n = (size_t)rows * cols;
   bool nontriv_any = false; uint64_t h = vh::hash_str("rect");
   for (int rep = 0; rep < reps; ++rep) {
-    int tcombo = (int)r.below(6);
+    int tcombo = forced_t >= 0 ? forced_t : (int)r.below(T_count);
     long levels = (kind == 2) ? r.range(2, 5) : (kind == 3) ? r.range(1, 9) : pick_levels(r, n);
     std::string how;
-    std::vector<double> vals = random_values(r, n, levels, tcombo == 3, how);
+    std::vector<double> vals = random_values(r, n, levels, tcombo_integral(tcombo), how);
+    if (tcombo == T_unsigned_ull) { double mn = *std::min_element(vals.begin(), vals.end()); for (auto& x : vals) x -= mn; }  // unsigned values: >= 0
+    how += decorate_values(c, vals, !tcombo_integral(tcombo));
     if (reps == 1) c.log("rect " + vh::str(rows) + "x" + vh::str(cols) + " levels<=" + vh::str(levels) + " gen=" + how + " types=" + vh::str(tcombo) + " cells(C order)=" + vh::vstr(vals));
-    else { X.header = "rect " + vh::str(rows) + "x" + vh::str(cols) + " batch of " + vh::str(reps) + "\n"; X.current_input("types=" + vh::str(tcombo) + " cells(C order)=" + vh::vstr(vals)); }
+    else { X.header = "rect " + vh::str(rows) + "x" + vh::str(cols) + " batch of " + vh::str(reps) + "\n"; X.current_input("types=" + vh::str(tcombo) + " gen=" + how + " cells(C order)=" + vh::vstr(vals)); }
     bool nt = false;
-    one_rectangle(X, rows, cols, vals, tcombo, nt);
+    one_rectangle(X, rows, cols, vals, tcombo, model, nt);
     if (nt) { nontriv_any = true; h = vh::hash_str(vh::vstr(vals), h); }
   }
-  static const char* kn[] = {"general", "thin", "small_ties", "r3x3", "big"};
+  static const char* kn[] = {"general", "thin", "small_ties", "r3x3", "big", "narrow_index", "huge"};
   c.count(std::string("cases.rect.") + kn[kind]);
   if (nontriv_any) c.nontrivial(vh::hash_mix(h, (uint64_t)(rows * 64 + cols)));
-  c.sample("{\"history\":\"" + vh::jesc(vh::G().history.substr(0, 600)) + "\"}");
-}
-
-template <class Container, class T>
-bool line_plain(Ctx& X, const std::vector<double>& vals, const char* cname, int cmp) {
-  Input_txt txt{0, (int)vals.size(), &vals};
-  X.c.count(std::string("range.") + cname);
-  if (cmp == 0) {
-    Container in; for (double x : vals) in.push_back((T)x);
-    return check_line(X, in, std::less<>(), [](T x) { return (double)x; }, [](T x) { return x == std::numeric_limits<T>::infinity(); }, "less", txt);
-  } else if (cmp == 1) {  // superlevel sets of -f with std::greater
-    Container in; for (double x : vals) in.push_back((T)-x);
-    return check_line(X, in, std::greater<>(), [](T x) { return -(double)x; }, [](T x) { return x == std::numeric_limits<T>::infinity(); }, "greater_negated", txt);
-  } else {                // default comparator argument (no lt passed): exercised through a local wrapper
-    Container in; for (double x : vals) in.push_back((T)x);
-    std::vector<std::pair<T, T>> calls;
-    Gudhi::persistent_cohomology::compute_persistence_of_function_on_line(in, [&](T b, T d) { calls.emplace_back(b, d); });
-    // same checks as check_line, through it, with an equivalent explicit comparator, must give the same calls
-    std::vector<std::pair<T, T>> calls2;
-    Gudhi::persistent_cohomology::compute_persistence_of_function_on_line(in, [&](T b, T d) { calls2.emplace_back(b, d); }, std::less<T>());
-    X.c.count("cmp.line.default_comparator_same_calls");
-    if (calls != calls2) { X.violation("line.default_comparator_same_calls", "line,cmp=default", [&] { return "input " + txt + ": default comparator and std::less<T> give different calls"; }); return false; }
-    return check_line(X, in, std::less<T>(), [](T x) { return (double)x; }, [](T x) { return x == std::numeric_limits<T>::infinity(); }, "less_T", txt);
-  }
-}
-
-void line_case(vh::Case& c) {
-  vh::Rng& r = c.rng;
-  Ctx X(c);
-  size_t n;
-  switch (r.below(8)) { case 0: n = (size_t)r.range(0, 3); break; case 1: case 2: n = (size_t)r.range(4, 12); break; case 3: n = (size_t)r.range(100, 200); break; default: n = (size_t)r.range(8, 100); }
-  long levels = pick_levels(r, std::max<size_t>(n, 2));
-  std::string how;
-  std::vector<double> vals = random_values(r, n, levels, false, how);
-  int variant = (int)r.below(7), cmp = (int)r.below(3);
-  c.log("line n=" + vh::str(n) + " levels<=" + vh::str(levels) + " gen=" + how + " variant=" + vh::str(variant) + " cmp=" + vh::str(cmp) + " vals=" + vh::vstr(vals));
-  switch (variant) {
-    case 0: case 1: line_plain<std::vector<double>, double>(X, vals, "vector_double", cmp); break;
-    case 2: line_plain<std::vector<float>, float>(X, vals, "vector_float", cmp); break;
-    case 3: line_plain<std::list<double>, double>(X, vals, "list_double", cmp); break;
-    case 4: line_plain<std::deque<float>, float>(X, vals, "deque_float", cmp); break;
-    default: {  // (value, position) elements with a lexicographic comparator: a total order
-      int nn = (int)n;
-      std::vector<VI> el; for (int i = 0; i < nn; ++i) el.push_back(VI{vals[i], i + 1});
-      std::vector<int> ord(nn); for (int i = 0; i < nn; ++i) ord[i] = i;
-      std::sort(ord.begin(), ord.end(), [&](int a, int b) { return VI_less()(el[a], el[b]); });
-      std::vector<double> rk(nn + 1, -1); for (int i = 0; i < nn; ++i) rk[ord[i] + 1] = i;
-      Input_txt txt{0, nn, &vals};
-      c.count("range.vector_value_index");
-      check_line(X, el, VI_less(), [&](const VI& x) { return (x.i >= 1 && x.i <= nn) ? rk[x.i] : -2.0; }, [](const VI& x) { return x.i == 0; }, "value_index_pair", txt);
-    }
-  }
-  c.count("inputs.line");
-  if (n == 0) c.count("inputs.line.empty");
-  if (n >= 100) c.count("inputs.line.len_ge_100");
-  size_t plateaus = 0; for (size_t i = 1; i < n; ++i) if (vals[i] == vals[i - 1]) ++plateaus;
-  if (plateaus) c.count("inputs.line.with_plateau");
-  if (n >= 2) {
-    Expected E = expected_of(0, (int)n, vals);
-    c.count("expected.finite_dim0_intervals", E.offdiag.size());
-    if (!E.offdiag.empty()) c.nontrivial(vh::hash_str(vh::vstr(vals), vh::hash_str("line")));
-  }
   c.sample("{\"history\":\"" + vh::jesc(vh::G().history.substr(0, 600)) + "\"}");
 }
 
@@ -171,5 +115,6 @@ VH_CONFIG("rect_thin", [](vh::Case& c) { rect_case(c, 1); });
 VH_CONFIG("rect_small_ties", [](vh::Case& c) { rect_case(c, 2); });
 VH_CONFIG("rect3x3_sample", [](vh::Case& c) { rect_case(c, 3); });
 VH_CONFIG("rect_big", [](vh::Case& c) { rect_case(c, 4); });
-VH_CONFIG("line_random", line_case);
+VH_CONFIG("rect_narrow_index", [](vh::Case& c) { rect_case(c, 5); });
+VH_CONFIG("rect_huge", [](vh::Case& c) { rect_case(c, 6); });
 VH_MAIN()
